@@ -16,6 +16,7 @@ from .. import coqio as q
 #        | ["assert", [[name, loc], ...]] | ["cleanup", tok, [act, ...]] | ["patch", attr, v]
 #        | ["fixture", {"tok","old","details":[[name,loc]],"cleanups":[[tok, exc|None]],"fail":exc|None}]
 #        | ["onexc", h] | ["force"] | ["xfailcall", r, exc|None] | ["raise", exc]
+#        | ["inserthandler", cls, outcome]        self.exception_handlers.insert(0, (cls, handler reporting outcome))
 #   prog : {"skip": None | [where, r], "xfail": bool, "setup": {"tok","acts","up"}, "body": {"tok","acts"},
 #           "teardown": {"tok","acts","up"}, "handlers": [[cls, outcome], ...]}
 #          up: "first" | "last" (where the upcall is made) | "none"
@@ -201,8 +202,16 @@ def _exec(env, case, acts):
             case.expectFailure("r%d" % a[1], pred)
         elif k == "raise":
             raise env.exc(a[1])
+        elif k == "inserthandler":
+            case.exception_handlers.insert(0, (env.cls(a[1]), _outcome_handler(a[2])))
         else:
             raise AssertionError("unknown act %r" % (a,))
+
+
+def _outcome_handler(o):
+    def handler(case, result, err, o=o):
+        getattr(result, ADD[o])(case, details=case.getDetails())
+    return handler
 
 
 def build(env, prog):
@@ -243,12 +252,7 @@ def build(env, prog):
     if prog["skip"] and prog["skip"][0] == "class":
         T = testtools.skip("r%d" % prog["skip"][1])(T)
     case = T("test_x")
-    hs = []
-    for c, o in prog["handlers"]:
-        def handler(case, result, err, o=o):
-            getattr(result, ADD[o])(case, details=case.getDetails())
-        hs.append((env.cls(c), handler))
-    case.exception_handlers[0:0] = hs
+    case.exception_handlers[0:0] = [(env.cls(c), _outcome_handler(o)) for c, o in prog["handlers"]]
     return case
 
 
@@ -439,6 +443,8 @@ def t_act(a):
         return "(AExpectFailure %s %s)" % (q.nat(a[1]), q.option(a[2], t_exc))
     if k == "raise":
         return "(ARaise %s)" % t_exc(a[1])
+    if k == "inserthandler":
+        return "(AInsertHandler %s %s)" % (t_cls(a[1]), COQ_OUT[a[2]])
     raise AssertionError(a)
 
 
@@ -686,6 +692,13 @@ def rand_acts(rng, depth, feats, p_raise=0.35, maxlen=3):
             acts.append(["expect", []])
         elif r < 0.83:
             acts.append(["force"])
+        elif r < 0.90 and "insert" in feats:
+            # a handler put in front of exception_handlers while the test runs; "insert" = for Exception-derived
+            # classes only, "insert-any" in addition = also for the others
+            pool = [CUSTOM, CUSTOMSUB, SUBFAIL, "SetupError", "ValueError", "Skip", "Fail", "Exception"]
+            if "insert-any" in feats:
+                pool = pool + [CUSTOMBASE, "Kbd", SUBKBD, "SysExit", "BaseException"]
+            acts.append(["inserthandler", rng.choice(pool), rng.choice(OUTCOMES[1:])])
     if rng.random() < p_raise:
         r = rng.random()
         if r < 0.70:
@@ -793,7 +806,7 @@ def shrink_prog(p):
 def prog_distribution(progs):
     d = {"raising_acts": {}, "cleanup_depth": {}, "with_base_exception": 0, "with_multi": 0, "with_handlers": 0,
          "with_fixture": 0, "with_patch": 0, "with_details": 0, "skip_decorated": 0, "xfail_decorated": 0,
-         "missing_upcall": 0, "with_expect_or_force": 0}
+         "missing_upcall": 0, "with_expect_or_force": 0, "with_handler_inserted_while_running": 0}
     import json
     for p in progs:
         n = min(len(raising_acts(p)), 6)
@@ -811,4 +824,5 @@ def prog_distribution(progs):
         d["xfail_decorated"] += bool(p["xfail"])
         d["missing_upcall"] += p["setup"]["up"] == "none" or p["teardown"]["up"] == "none"
         d["with_expect_or_force"] += '"expect"' in s or '"force"' in s
+        d["with_handler_inserted_while_running"] += '"inserthandler"' in s
     return d
